@@ -9,6 +9,7 @@
 -/
 import Chrono.Proofs.Rfc2822ScanSoundL
 import Chrono.Proofs.ParsedZonedL
+import Chrono.Proofs.Rfc2822InbandL
 import Chrono.Extracted.Rfc2822
 
 namespace Chrono.Props.C11
@@ -174,6 +175,86 @@ example : ZInv ⟨⟨dateOfYo 2016 366, ⟨86399, 1500000000⟩⟩, 19800⟩ ∧
     TStrict (⟨86399, 1500000000⟩ : Time) ∧
     WallDate ⟨⟨dateOfYo 2016 366, ⟨86399, 1500000000⟩⟩, 19800⟩ 2017 1 ∧
     shownZone (-20) = [45, 48, 48, 48, 48] ∧ shownZone 86380 = [43, 50, 52, 48, 48] := by
+  unfold WallDate
+  decide +kernel
+
+/-- **roundtrip_inband_leap** (the complementary case of `roundtrip`).  A well-formed value that carries
+the leap-second representation (nanosecond field ≥ 10⁹) on a second OTHER than :59 of a minute — only
+`with_nanosecond` builds it — with wall-clock year 0–9999 and a whole-minute offset: the writer shows
+`second + 1` (≤ 59), and `parse_from_rfc2822(&z.to_rfc2822())` is `Ok` of the FOLLOWING whole second
+(`nextSec z`): same offset, instant `+1 s` in whole seconds, no sub-second part, no leap flag.  There
+is no range caveat: the following second lies on the same UTC day (`secs % 60 ≠ 59` gives
+`secs + 1 < 86400`), so the result is always a well-formed in-range value — the call never yields `Err`.
+(Confirmed on the real crate: 2020-05-17T12:30:15 + 1.5 s at +01:00 → `Sun, 17 May 2020 13:30:16 +0100`
+→ 13:30:16+01:00.)  The in-band value's instant is `secs + frac/10⁹ ≥ secs + 1`, so this IS "the same
+instant to whole seconds" (`readBack_whole_seconds`). -/
+theorem roundtrip_inband_leap (z : Zoned) (hz : ZInv z) (hl : InbandLeap z) (Y : Int) (o : Nat)
+    (hw : WallDate z Y o) (hr : 0 ≤ Y ∧ Y ≤ 9999) (hoff : z.off % 60 = 0) :
+    ∃ z', Rfc2822.roundtrip z = .ok (.ok (.ok z')) ∧ z' = nextSec z ∧ ZInv z' ∧ z'.off = z.off ∧
+      instSecs z'.utc = instSecs z.utc + 1 ∧ z'.utc.time.frac = 0 := by
+  obtain ⟨h1, h2, h3⟩ := fieldsOf_facts_inband z hz hl Y o hw hr hoff
+  obtain ⟨z', p1, p2⟩ := reader_accepts_spec _ _ (std_in_grammar _ h1) h2
+  have := denotation_unique _ z' (nextSec z) p2 h3
+  subst this
+  obtain ⟨n1, n2, n3, n4, _⟩ := nextSec_facts z hz hl
+  refine ⟨nextSec z, ?_, rfl, n1, n4, n2, n3⟩
+  unfold Rfc2822.roundtrip
+  rw [writer_shape_whole_minute z hz Y o hw hr hoff]
+  simp only [p1]
+
+/-- the split is exhaustive: a well-formed value is constructor-built (`TStrict`, hypothesis of
+`roundtrip`) exactly when it is not an in-band leap value (hypothesis of `roundtrip_inband_leap`) -/
+theorem strict_or_inband (z : Zoned) (hz : ZInv z) : TStrict z.utc.time ↔ ¬ InbandLeap z := by
+  obtain ⟨⟨_, hv⟩, _⟩ := hz
+  unfold TStrict InbandLeap
+  constructor
+  · rintro ⟨_, h⟩; omega
+  · intro h; exact ⟨hv, by omega⟩
+
+/-- **roundtrip_all** (the property's round-trip clause on its WHOLE quantifier domain).  For every
+well-formed value — any nanosecond field the type admits, the in-band leap representation included —
+with wall-clock year 0–9999 and a whole-minute offset, `parse_from_rfc2822(&z.to_rfc2822())` is `Ok
+(readBack z)`: never a panic, never `Err`; the same offset; `z` to whole seconds, a leap second on :59
+kept, an in-band leap value read as the following second. -/
+theorem roundtrip_all (z : Zoned) (hz : ZInv z) (Y : Int) (o : Nat)
+    (hw : WallDate z Y o) (hr : 0 ≤ Y ∧ Y ≤ 9999) (hoff : z.off % 60 = 0) :
+    Rfc2822.roundtrip z = .ok (.ok (.ok (readBack z))) := by
+  unfold readBack
+  by_cases hl : InbandLeap z
+  · rw [if_pos hl]
+    obtain ⟨z', h, rfl, _⟩ := roundtrip_inband_leap z hz hl Y o hw hr hoff
+    exact h
+  · rw [if_neg hl]
+    exact roundtrip z hz ((strict_or_inband z hz).mpr hl) Y o hw hr hoff
+
+/-- **readBack_whole_seconds** (what `readBack` means, against the instant scale only).  Counting the
+nanosecond field's overflow as one more second (`instSecs + frac / 10⁹`: chrono's reading of its leap
+representation), `readBack z` is the same whole second as `z`, has no sub-second part, the same
+offset and is well formed; and it is a leap-second value exactly when `z` is one on second :59. -/
+theorem readBack_whole_seconds (z : Zoned) (hz : ZInv z) :
+    instSecs (readBack z).utc + (readBack z).utc.time.frac / 1000000000 =
+      instSecs z.utc + z.utc.time.frac / 1000000000 ∧
+    (readBack z).utc.time.frac % 1000000000 = 0 ∧ (readBack z).off = z.off ∧ ZInv (readBack z) ∧
+    ((readBack z).utc.time.frac ≥ 1000000000 ↔ (z.utc.time.frac ≥ 1000000000 ∧ z.utc.time.secs % 60 = 59)) := by
+  unfold readBack
+  by_cases hl : InbandLeap z
+  · rw [if_pos hl]
+    obtain ⟨n1, n2, n3, n4, _⟩ := nextSec_facts z hz hl
+    obtain ⟨⟨_, _, _, f0, f1⟩, _⟩ := hz
+    obtain ⟨l1, l2⟩ := hl
+    refine ⟨by rw [n2, n3]; omega, by rw [n3]; rfl, n4, n1, by rw [n3]; omega⟩
+  · rw [if_neg hl]
+    obtain ⟨⟨hd, t0, t1, f0, f1⟩, ho⟩ := hz
+    unfold InbandLeap at hl
+    refine ⟨?_, ?_, rfl, ⟨⟨hd, t0, t1, ?_, ?_⟩, ho⟩, ?_⟩
+    all_goals (unfold truncSecs; (try unfold instSecs); dsimp only; split <;> omega)
+
+/-- non-vacuity of `roundtrip_inband_leap` / `roundtrip_all`: 2020-05-17T12:30:15 carrying 1.5 s in
+its nanosecond field, seen at +01:00, meets every hypothesis; it reads back as 12:30:16 UTC -/
+example : ZInv ⟨⟨dateOfYo 2020 138, ⟨45015, 1500000000⟩⟩, 3600⟩ ∧
+    InbandLeap ⟨⟨dateOfYo 2020 138, ⟨45015, 1500000000⟩⟩, 3600⟩ ∧
+    WallDate ⟨⟨dateOfYo 2020 138, ⟨45015, 1500000000⟩⟩, 3600⟩ 2020 138 ∧
+    readBack ⟨⟨dateOfYo 2020 138, ⟨45015, 1500000000⟩⟩, 3600⟩ = ⟨⟨dateOfYo 2020 138, ⟨45016, 0⟩⟩, 3600⟩ := by
   unfold WallDate
   decide +kernel
 
